@@ -74,7 +74,8 @@ type Term struct {
 	P1    int    // extract hi / extend amount
 	P2    int    // extract lo
 	id    int64
-	bound bool // mentions a bound variable
+	bound bool     // mentions a free bound variable
+	fb    []string // free bound variables (sorted)
 }
 
 const termShards = 64
@@ -111,12 +112,8 @@ func mk(op string, s *Sort, val uint64, name string, p1, p2 int, args ...*Term) 
 	sb.WriteByte('|')
 	sb.WriteString(s.str)
 	fmt.Fprintf(&sb, "|%d|%s|%d|%d", val, name, p1, p2)
-	bound := op == "bound"
 	for _, a := range args {
 		fmt.Fprintf(&sb, "|%d", a.id)
-		if a.bound {
-			bound = true
-		}
 	}
 	k := sb.String()
 	sh := &termTab[fnv(k)%termShards]
@@ -125,46 +122,45 @@ func mk(op string, s *Sort, val uint64, name string, p1, p2 int, args ...*Term) 
 	if t, ok := sh.m[k]; ok {
 		return t
 	}
-	t := &Term{Op: op, S: s, Args: args, Val: val, Name: name, P1: p1, P2: p2, id: atomic.AddInt64(&termCnt, 1), bound: bound}
-	if op == "forall" || op == "exists" || op == "lambda" {
-		// closed if the body mentions only its own bound variable
-		t.bound = freeBound(t)
+	t := &Term{Op: op, S: s, Args: args, Val: val, Name: name, P1: p1, P2: p2, id: atomic.AddInt64(&termCnt, 1)}
+	switch op {
+	case "bound":
+		t.fb = []string{name}
+	case "forall", "exists", "lambda":
+		own := args[0].Name
+		for _, a := range args[1:] {
+			for _, n := range a.fb {
+				if n != own {
+					t.fb = addName(t.fb, n)
+				}
+			}
+		}
+	default:
+		for _, a := range args {
+			if len(a.fb) > 0 {
+				if t.fb == nil {
+					t.fb = a.fb
+				} else {
+					for _, n := range a.fb {
+						t.fb = addName(t.fb, n)
+					}
+				}
+			}
+		}
 	}
+	t.bound = len(t.fb) > 0
 	sh.m[k] = t
 	return t
 }
 
-// freeBound reports whether t mentions a bound variable not bound inside t
-func freeBound(t *Term) bool {
-	var walk func(t *Term, env map[string]bool) bool
-	walk = func(t *Term, env map[string]bool) bool {
-		if !t.bound {
-			return false
+func addName(s []string, n string) []string {
+	for _, x := range s {
+		if x == n {
+			return s
 		}
-		switch t.Op {
-		case "bound":
-			return !env[t.Name]
-		case "forall", "exists", "lambda":
-			n := t.Args[0].Name
-			was := env[n]
-			env[n] = true
-			r := false
-			for _, a := range t.Args[1:] {
-				if walk(a, env) {
-					r = true
-				}
-			}
-			env[n] = was
-			return r
-		}
-		for _, a := range t.Args {
-			if walk(a, env) {
-				return true
-			}
-		}
-		return false
 	}
-	return walk(t, map[string]bool{})
+	r := append(append([]string(nil), s...), n)
+	return r
 }
 
 func mask(w int) uint64 {
@@ -513,6 +509,9 @@ func cmp(op string, a, b *Term) *Term {
 	if (op == "bvult" || op == "bvule") && a.Op == "zext" && b.IsConst() && b.Val > mask(a.Args[0].S.W) {
 		return tTrue
 	}
+	if op == "bvule" && a.Op == "zext" && b.IsConst() && b.Val == mask(a.Args[0].S.W) {
+		return tTrue
+	}
 	return mk(op, BoolS, 0, "", 0, 0, a, b)
 }
 func BvNot(a *Term) *Term {
@@ -585,7 +584,12 @@ func Select(a, i *Term) *Term {
 		case "constarr":
 			return a.Args[0]
 		case "lambda":
-			return Subst(a.Args[1], map[int64]*Term{a.Args[0].id: i})
+			if i.bound {
+				// stay lazy under binders: β-reduce when the index becomes closed (keeps nested
+				// definitional arrays linear in the number of updates)
+				return mk("select", a.S.Elem, 0, "", 0, 0, a, i)
+			}
+			return SubstBound(a.Args[1], a.Args[0], i)
 		case "ite":
 			if a.Args[1].Op == "lambda" || a.Args[2].Op == "lambda" || a.Args[1].Op == "constarr" || a.Args[2].Op == "constarr" {
 				return Ite(a.Args[0], Select(a.Args[1], i), Select(a.Args[2], i))
@@ -629,6 +633,46 @@ func StrLit(s string) *Term { return mk("strlit", StrS, 0, s, 0, 0) }
 // Subst replaces terms (by id) bottom-up through the smart constructors
 func Subst(t *Term, sub map[int64]*Term) *Term {
 	return rebuild(t, sub, map[int64]*Term{})
+}
+
+// SubstBound replaces one bound variable; subterms in which it does not occur free are shared, not rebuilt.
+func SubstBound(t *Term, bv *Term, val *Term) *Term {
+	return rebuildB(t, bv, val, map[int64]*Term{})
+}
+
+func hasFree(t *Term, name string) bool {
+	for _, n := range t.fb {
+		if n == name {
+			return true
+		}
+	}
+	return false
+}
+
+func rebuildB(t *Term, bv, val *Term, memo map[int64]*Term) *Term {
+	if t == bv {
+		return val
+	}
+	if !hasFree(t, bv.Name) {
+		return t
+	}
+	if r, ok := memo[t.id]; ok {
+		return r
+	}
+	as := make([]*Term, len(t.Args))
+	changed := false
+	for i, a := range t.Args {
+		as[i] = rebuildB(a, bv, val, memo)
+		if as[i] != a {
+			changed = true
+		}
+	}
+	r := t
+	if changed {
+		r = remake(t, as)
+	}
+	memo[t.id] = r
+	return r
 }
 
 func rebuild(t *Term, sub map[int64]*Term, memo map[int64]*Term) *Term {
